@@ -35,6 +35,16 @@ static void mkdomain(char *d, int len, int variant)
 	d[len] = 0;
 	if (len < 32) {
 		d[len >= 5 && variant % 2 ? len - 3 : 1] = '.';
+	} else if (len >= 66 && variant % 5 == 0) {
+		/* a label of exactly 63 characters (the longest legal one) in front, the rest in labels of <= 63 */
+		d[63] = '.';
+		for (i = 63 + 51 - (variant / 5) % 3; i < len - 1; i += 51)
+			d[i] = '.';
+	} else if (len >= 66 && variant % 5 == 1) {
+		/* ... or as the last label */
+		d[len - 64] = '.';
+		for (i = len - 64 - 30 - variant % 30; i > 0; i -= 40)
+			d[i] = '.';
 	} else {
 		for (i = 20 + variant % 9; i < len - 1; i += 28 + variant % 30)
 			d[i] = '.';
